@@ -36,6 +36,9 @@ func runC16(c *Ctx) {
 		return
 	}
 	info := pk.TypesInfo
+	// the constructor sizes the shutdown-signal channel from the worker-count option inside the init
+	// function it hands to options.Apply
+	checkOptionsApplyOrder(r, p)
 	callNamed := func(name string) func(ast.Node) bool {
 		return func(n ast.Node) bool {
 			c, ok := n.(*ast.CallExpr)
